@@ -173,7 +173,7 @@ func analyzerStream(meta *common.Meta, tier string, seed int64, fset *token.File
 				nontrivial++
 			}
 			got = append(got, render(ds, e))
-			st := analyzer.VerifPrepare()
+			st := analyzer.VerifPrepare() + "\n" + analyzer.VerifSnapshot() // every field of the cached value, checker names, parameter values
 			if i == 0 {
 				prepared = st
 			} else if st != prepared {
